@@ -88,7 +88,8 @@ def variants(name, dom, L):
         V = [("list", [("a", U), ("b", "int")], [f"BU({L}, a, b)"], ["[a, b]"], {}),
              ("str", [("s", "str")], [f"len(s) <= {L}"], ["s"], {}),
              ("dict", [], [], ["{'k': 0, 1: 1, None: 2}"], {}),
-             ("scalar", a_i, ["I64(a)"], ["a"], {})]
+             ("scalar", a_i, ["I64(a)"], ["a"], {}),
+             ("strc", [], [], ["'ab'"], {})]
     elif name in ("in_range", "not_in_range"):
         V = [("w3", [("lo", "int"), ("hi", "int")], ["I64(lo, hi) and hi - lo <= 3"], ["lo", "hi"], {}),
              ("illtyped", [("hi", "int")], ["I64(hi)"], ["None", "hi"], {})]
@@ -203,7 +204,11 @@ def cases(ctx):
                 for d in ds:
                     if kind == "value" and dom == "raw" and name in ("factor_of", "has_factor") and d[0] == "m":
                         continue   # str items would be %-formatted with the symbolic argument: they are in the conc/float docs
-                    if v[0] == "float" and name in ("factor_of", "has_factor"):
+                    if v[0] == "str" and name in ("in_", "not_in") and "'': {}" in d[3]:
+                        # CrossHair models `{} in <symbolic str>` as True where CPython raises TypeError (a non-reproducing
+                        # counterexample): the empty mapping item meets the concrete str argument of variant "strc" instead
+                        d = (d[0], d[1], d[2], d[3].replace("'': {}", "'': {'k': 0}"))
+                    if v[0] == "float" and name in ("factor_of", "has_factor") and kind == "value":
                         # `atom % 2.5`: str atoms are formatted (enumerates), int/bool atoms meet a float (stalls z3):
                         # the float argument meets concrete items only, the atom sits where `%` does not reach it
                         d = ("lc", [("u1", U)], [f"BU({L}, u1)"], "[{'k': u1}, 1.5, 5.0, 2, 10, True, None, 's', '%d', '%', 7.5, 0, 0.0]")
@@ -317,4 +322,29 @@ ok = ok and same('test single-item mapping', cond.test({'k': u1}), ref_tree(T, {
 return ok
 """
     out.append(mk_case("c01.entry.key.equal_to", [("a", U), ("u1", U)], body, pre=[f"BU({L}, a, u1)"]))
+    # one Data object filtered several times: what an earlier condition computed on it (keys vs values, lengths vs
+    # types, another argument) must not leak into a later one
+    seqs = {
+        "len.key_value": ["leaf('key', 'length', 'equal_to', a)", "leaf('value', 'length', 'equal_to', a)", "leaf('key', 'length', 'less_than', a)"],
+        "len.value_key": ["leaf('value', 'length', 'greater_than', a)", "leaf('key', 'length', 'greater_than', a)"],
+        "dtype.key_value": ["leaf('key', 'dtype', 'equal_to', str)", "leaf('value', 'dtype', 'equal_to', str)", "leaf('key', 'dtype', 'in_', [int, str])"],
+        "dtype.value_key": ["leaf('value', 'dtype', 'equal_to', int)", "leaf('key', 'dtype', 'equal_to', int)"],
+        "mixed": ["leaf('value', 'length', 'equal_to', a)", "leaf('value', 'dtype', 'equal_to', list)", "leaf('value', None, 'equal_to', a)",
+                  "leaf('key', None, 'equal_to', 'ab')", "leaf('key', 'length', 'equal_to', a)", "leaf('value', 'length', 'equal_to', 1)"],
+    }
+    for sid, seq in seqs.items():
+        body = f"""
+doc = {{'ab': [1, u1, 3], 'xyz': 'q', 'k': u1, 3: 'abc', '': [[]]}}
+d = Data(doc)
+ok = True
+for T in [{', '.join(seq)}]:
+    cond = build_cond(T)
+    exp = ref_tree(T, doc)
+    fd = d.filter(cond)
+    ok = ok and same('Data.filter on the shared Data', fd.result, exp)
+    ok = ok and same('failure_indices', fd.failure_indices, [i for i in range(len(exp)) if not exp[i]])
+    ok = ok and same('cond.filter(shared Data)', cond.filter(d).result, exp)
+return ok
+"""
+        out.append(mk_case(f"c01.shared_data.{sid}", [("a", "int"), ("u1", "Union[bool, None, str]")], body, pre=[f"I64(a) and BU({L}, u1)"]))
     return out
